@@ -329,10 +329,42 @@ static void hquery_free(struct host_query *hquery, ares_bool_t cleanup_ai)
   ares_free(hquery);
 }
 
+/* Answers may carry address records of a family that wasn't asked for (e.g.
+ * an AAAA record next to the A records of an A answer).  Only addresses of the
+ * requested family may be returned. */
+static void hquery_filter_family(struct host_query *hquery)
+{
+  struct ares_addrinfo_node **pnode;
+  int                         family = hquery->hints.ai_family;
+
+  if (family != AF_INET && family != AF_INET6) {
+    return;
+  }
+
+  pnode = &hquery->ai->nodes;
+  while (*pnode != NULL) {
+    struct ares_addrinfo_node *node = *pnode;
+    if (node->ai_family != family) {
+      *pnode        = node->ai_next;
+      node->ai_next = NULL;
+      ares_freeaddrinfo_nodes(node);
+      continue;
+    }
+    pnode = &node->ai_next;
+  }
+}
+
 static void end_hquery(struct host_query *hquery, ares_status_t status)
 {
   struct ares_addrinfo_node  sentinel;
   struct ares_addrinfo_node *next;
+
+  if (status == ARES_SUCCESS) {
+    hquery_filter_family(hquery);
+    if (hquery->ai->nodes == NULL && hquery->ai->cnames == NULL) {
+      status = ARES_ENODATA;
+    }
+  }
 
   if (status == ARES_SUCCESS) {
     if (!(hquery->hints.ai_flags & ARES_AI_NOSORT) && hquery->ai->nodes) {
